@@ -77,6 +77,7 @@ func runC01(c *core.Ctx) {
 	c.Rule("C01.seed", "A1: restoreEventState calls addEvent then triggered exactly when the restored level ≠ OK")
 	c.Rule("C01.level", "A1: determineLevel returns the upward search result if found; else the current level if a reset expression is configured, evaluated without error and did not pass; else the downward search result if found; else OK")
 	c.Rule("C01.match", "A1: findFirstMatchLevel reports a match only for a level whose expression evaluated without error to true, and returns that same level")
+	c.Rule("C01.batchlevel", "A1: in BufferedBatch every point of the batch is compared with both the running lowest level (started at Critical) and the running highest level (started at OK, or no point yet): on every path through one iteration the lowest level is stored iff the point's level is lower, the highest level and point iff it is higher or none was seen; neither comparison may be skipped")
 	c.Rule("C01.episode", "A1: triggered stores lastTriggered on every path and firstTriggered exactly under a `== OK` test of a history element")
 	c.Rule("C01.fanout", "A1/A3: handleEvent: inhibited ⇒ no Collect; otherwise Collect once per configured topic kind, each with event.Topic set to that topic just before; a Collect error does not prevent the other Collect")
 
@@ -560,7 +561,39 @@ func runC01(c *core.Ctx) {
 				}
 				return "lastTriggered=" + t
 			}})
+		// the history element tested is the slot before the current index: idx-1, or the last slot exactly when idx-1 is negative
+		slotGood, slotN := true, 0
+		for _, p := range paths {
+			wrapped, wrapDecided := false, false
+			prevKey := ""
+			for _, l := range p.Lits {
+				switch {
+				case l.Key == "(a.idx - 1) == -1" || l.Key == "(a.idx - 1) < 0":
+					wrapped, wrapDecided = l.Val, true
+				case l.Name == "prevok":
+					prevKey = l.Key
+				}
+			}
+			if prevKey == "" {
+				continue
+			}
+			slotN++
+			want := "a.history[(a.idx - 1)] == alert.OK"
+			if wrapped {
+				want = "a.history[(len(a.history) - 1)] == alert.OK"
+			}
+			if !wrapDecided || prevKey != want {
+				slotGood = false
+				c.Fail("C01.episode", "alertState.triggered#previous-slot", p.RetPos, "the start of an incident is decided from %s; the previous history slot is idx-1, and the last slot exactly when idx-1 is -1 (path: %s): looking at another slot resets, or keeps, firstTriggered wrongly and the reported duration is off", prevKey, p.Cond())
+			}
+		}
+		if slotGood && slotN > 0 {
+			c.Ok("C01.episode", "alertState.triggered#previous-slot")
+		}
 	}
+
+	// ---- C01.batchlevel
+	c01BatchLevel(c, info)
 
 	// ---- C01.fanout
 	if fn := c.Need("C01.fanout", "", "AlertNode", "handleEvent"); fn != nil {
@@ -1017,4 +1050,106 @@ func c01IndexPreserving(c *core.Ctx, info *types.Info, g *types.Func) bool {
 		return true
 	})
 	return ok
+}
+
+func c01BatchLevel(c *core.Ctx, info *types.Info) {
+	fn := c.Need("C01.batchlevel", "", "alertState", "BufferedBatch")
+	if fn == nil {
+		return
+	}
+	// the running variables by role: initialised to alert.Critical (lowest) and alert.OK (highest) before the loop over the points
+	var lowObj, highObj types.Object
+	var loop *ast.RangeStmt
+	ast.Inspect(fn.Decl.Body, func(n ast.Node) bool {
+		switch x := n.(type) {
+		case *ast.AssignStmt:
+			if x.Tok == token.DEFINE && len(x.Lhs) == 1 && len(x.Rhs) == 1 && loop == nil {
+				if id, ok := x.Lhs[0].(*ast.Ident); ok {
+					switch {
+					case an.ConstNamed(info, x.Rhs[0], "alert", "Critical"):
+						lowObj = info.Defs[id]
+					case an.ConstNamed(info, x.Rhs[0], "alert", "OK"):
+						highObj = info.Defs[id]
+					}
+				}
+			}
+		case *ast.RangeStmt:
+			if loop == nil && strings.HasSuffix(types.ExprString(x.X), ".Points()") {
+				loop = x
+			}
+		}
+		return true
+	})
+	if lowObj == nil || highObj == nil || loop == nil {
+		c.Fail("C01.batchlevel", "alertState.BufferedBatch#roles", fn.Decl.Pos(), "running lowest (:= alert.Critical) / highest (:= alert.OK) level or the loop over the batch points not found")
+		return
+	}
+	role := func(x ast.Expr) string {
+		if id, ok := ast.Unparen(x).(*ast.Ident); ok {
+			switch info.Uses[id] {
+			case lowObj:
+				return "low"
+			case highObj:
+				return "high"
+			}
+		}
+		return ""
+	}
+	eng := &an.Engine{Prog: c.P, Info: info,
+		TrackStore: func(lhs ast.Expr, key string) string {
+			if r := role(lhs); r != "" {
+				return r
+			}
+			if id, ok := ast.Unparen(lhs).(*ast.Ident); ok {
+				if v, ok := info.Uses[id].(*types.Var); ok && strings.HasSuffix(v.Type().String(), "BatchPointMessage") {
+					return "point"
+				}
+			}
+			return ""
+		},
+		Classify: func(a an.Atom) (string, bool) {
+			switch {
+			case a.Op == token.LSS && a.RX != nil && role(a.RX) == "low":
+				return "lower", false
+			case a.Op == token.LSS && a.LX != nil && role(a.LX) == "high":
+				return "higher", false
+			case a.Op == token.EQL && a.R == "nil" && a.LX != nil:
+				if id, ok := ast.Unparen(a.LX).(*ast.Ident); ok {
+					if v, ok := info.Uses[id].(*types.Var); ok && strings.HasSuffix(v.Type().String(), "BatchPointMessage") {
+						return "none", false
+					}
+				}
+			}
+			return "", false
+		}}
+	paths, err := eng.RunBody(fn.Decl.Type, fn.Decl.Recv, loop.Body)
+	if err != nil {
+		c.Undecided("C01.batchlevel", "alertState.BufferedBatch#iteration", loop.Pos(), "%v", err)
+		return
+	}
+	good := len(paths) > 0
+	for _, p := range paths {
+		a := p.Assign()
+		lower, decL := a["lower"]
+		higher, decH := a["higher"]
+		none := a["none"]
+		storesLow, storesHigh, storesPoint := p.Has("low"), p.Has("high"), p.Has("point")
+		switch {
+		case !decL:
+			good = false
+			c.Fail("C01.batchlevel", "alertState.BufferedBatch#lowest", p.RetPos, "on a path through one iteration the point's level is not compared with the running lowest level (%s): with all() a batch whose first (or only) point is the lowest raises the wrong level", p.Cond())
+		case !decH:
+			good = false
+			c.Fail("C01.batchlevel", "alertState.BufferedBatch#highest", p.RetPos, "on a path through one iteration the point's level is not compared with the running highest level (%s)", p.Cond())
+		case storesLow != lower:
+			good = false
+			c.Fail("C01.batchlevel", "alertState.BufferedBatch#lowest", p.RetPos, "the running lowest level is stored=%v although level<lowest=%v", storesLow, lower)
+		case (storesHigh && storesPoint) != (higher || none) || storesHigh != storesPoint:
+			good = false
+			c.Fail("C01.batchlevel", "alertState.BufferedBatch#highest", p.RetPos, "the running highest level/point are stored=%v/%v although level>highest=%v, no point yet=%v", storesHigh, storesPoint, higher, none)
+		}
+	}
+	if good {
+		c.Ok("C01.batchlevel", "alertState.BufferedBatch#iteration")
+	}
 }
